@@ -282,6 +282,9 @@ func (c *c09Stream) Read(p []byte) (int, error) {
 	return n, nil
 }
 func (c *c09Stream) Write(p []byte) (int, error) {
+	if c.closed {
+		return 0, io.ErrClosedPipe // as a closed socket does
+	}
 	c.frames = append(c.frames, append([]byte{}, p[2:]...))
 	return len(p), nil
 }
@@ -349,4 +352,49 @@ func Verif_C09_pipelined() {
 		ok := errs[i] == nil && got[i] != nil && len(got[i].Question) == 1 && got[i].Question[0].Name == names[i]
 		vs.Assert("each query gets the reply sent under its own ID, never the stray one", ok)
 	}
+}
+
+// Verif_C09_pipelined_cancel: a query on a pipelined upstream connection is abandoned by its client
+// (context cancelled) after it went out; another client's query then uses the same connection
+// object, and the upstream answers the abandoned query late, under the ID it was sent with, before
+// answering the second: the second client never receives the answer to the first one's question
+// (transaction IDs are reused as soon as they are free).
+func Verif_C09_pipelined_cancel() {
+	vs.Schedules(0)
+	st := &c09Stream{in: make(chan []byte, 8), wake: make(chan struct{})}
+	pc := newPipelinedConn(st)
+	names := []string{"a.example.", "b.example."}
+	pack := func(name string) []byte {
+		q := new(dnsmessage.Msg)
+		q.Question = []dnsmessage.Question{{Name: name, Qtype: dnsmessage.TypeA, Qclass: dnsmessage.ClassINET}}
+		data, _ := q.Pack()
+		return data
+	}
+	frameID := func(f []byte) uint16 {
+		m := new(dnsmessage.Msg)
+		if m.Unpack(f) != nil {
+			vs.Fail("request frame unreadable")
+		}
+		return m.Id
+	}
+	var got [2]*dnsmessage.Msg
+	var errs [2]error
+	ctx1, cancel := context.WithCancel(context.Background())
+	go func() { got[0], errs[0] = pc.RoundTrip(ctx1, pack(names[0])) }()
+	vs.Join() // on the wire, waiting
+	vs.Assert("the first request was written", len(st.frames) == 1)
+	id1 := frameID(st.frames[0])
+	cancel()
+	vs.Join()
+	vs.Assert("the abandoned query returns with an error", errs[0] != nil && got[0] == nil)
+	go func() { got[1], errs[1] = pc.RoundTrip(context.Background(), pack(names[1])) }()
+	vs.Join()
+	st.in <- c09Frame(id1, names[0]) // the late answer to the abandoned query
+	if len(st.frames) == 2 {
+		st.in <- c09Frame(frameID(st.frames[1]), names[1])
+	}
+	vs.Join()
+	vs.Assert("no query receives the late answer to another client's question",
+		got[1] == nil || (len(got[1].Question) == 1 && got[1].Question[0].Name == names[1]))
+	vs.Assert("the second query ends: answered or failed, not left waiting", got[1] != nil || errs[1] != nil)
 }
